@@ -1,16 +1,35 @@
 """Per-property composition of rules (DESIGN.md section 3 / Appendix E)."""
 from . import rules_tables as T
+from . import rules_flow as R
+from . import rules_encode as E
+from . import rules_svg as S
+from . import rules_image as I
+from . import rules_wasm as Wm
+from . import rules_purity as P
+from . import rules_term as Tm
+from . import witness, fixture
+
+try:
+    from . import rules_index as X
+except ImportError:  # deepening rules not present
+    X = None
 
 TRUSTED = [
     "rustc nightly front end, MIR construction, trait resolution and constant evaluator",
     "std/core/alloc behave as documented",
-    "ISO/IEC 18004 reference transcription in fqrlint/reference.py (self-checked, cross-audited)",
+    "ISO/IEC 18004 reference transcription in fqrlint/reference.py (self-checked on every setup, cross-audited)",
     "the rule engine (fqrlint), tested both ways by selftest/",
 ]
 
 
+def x(name, ctx, *a):
+    """run a deepening rule if it exists"""
+    if X is not None and hasattr(X, name):
+        return getattr(X, name)(ctx, *a)
+    return None
+
+
 def tables_core(ctx, f):
-    """the table rules shared by C01/C02/C07/C10"""
     lay = T.c02_t1(ctx, f)
     dcw = T.c02_t2(ctx, f)
     deg = T.c02_t4_c07_t2(ctx, f)
@@ -18,33 +37,365 @@ def tables_core(ctx, f):
     return lay, dcw, deg, tot
 
 
+def C01(ctx):
+    f = ctx.facts("default")
+    tables_core(ctx, f)
+    T.c04_t1(ctx, f)
+    T.c04_t2(ctx, f)
+    T.c05_t1(ctx, f)
+    T.c05_t2(ctx, f)
+    T.c06_t1(ctx, f)
+    T.c06_t4(ctx, f)
+    T.c07_t1(ctx, f)
+    E.c06_t2(ctx, f)
+    E.c06_t3(ctx, f)
+    E.c06_r1(ctx, f)
+    R.c01_r1(ctx, f)
+    R.c01_r2(ctx, f)
+    R.c04_r1(ctx, f)
+    R.c08_r1(ctx, f, rid="C01.R3")
+    E.c02_r2(ctx, f)
+    x("c02_r3", ctx, f)
+    x("c01_r4", ctx, f)
+    return dict(
+        level="other",
+        explanation="Round-trip equality over all payloads is not decided as a whole. Decided, for all 3 840 configuration cells at "
+                    "once: every table a reference decoder depends on (block layouts, codeword counts, generators, GF tables, format/"
+                    "version words, count widths, capacity thresholds), every hand-off between pipeline stages (parameter fidelity, "
+                    "stage chaining, one mask value), and that codeword bits are written only into data-typed modules. Not decided: "
+                    "value computations inside payload loops (push_bits shifts, GF long division, zig-zag order), exact iteration "
+                    "spaces of the mask sweeps, compiler-inserted bounds/overflow asserts.",
+    )
+
+
 def C02(ctx):
     f = ctx.facts("default")
     lay, dcw, deg, tot = tables_core(ctx, f)
     T.c02_r1(ctx, f, tot)
     T.c07_r1(ctx, f, lay, deg)
+    E.c02_r2(ctx, f)
+    x("c02_r3", ctx, f)
     return dict(
         level="other",
-        explanation="Exhaustive table obligations: every cell of the block-layout, data-codeword, total-codeword, "
-                    "remainder-bit and generator tables is folded out of the compiled program (MIR + evaluated constants) "
-                    "and compared with values derived from ISO Table 9; buffer sizes are read from signatures. "
-                    "The interleaving loops' index arithmetic is not decided.",
+        explanation="Exhaustive table obligations: every cell of the block-layout, data-codeword, total-codeword, remainder-bit and "
+                    "generator tables is folded out of the compiled program (MIR + evaluated constants) and compared with values "
+                    "derived from ISO Table 9; buffer sizes are read from signatures; EC codewords are shown to come from the "
+                    "division of each block by the selected generator. Not decided: the GF long division loop (C07), the "
+                    "corruption corollary.",
+    )
+
+
+def C03(ctx):
+    f = ctx.facts("default")
+    T.c03_t1(ctx, f)
+    T.c03_t2(ctx, f)
+    T.c03_t3(ctx, f)
+    R.c08_r1(ctx, f, rid="C03.R1")
+    R.c03_r2(ctx, f)
+    ct = T.c15_t1(ctx, f)
+    E.c15_r1(ctx, f, ct)
+    x("c03_r3", ctx, f)
+    return dict(
+        level="other",
+        explanation="Side = 17+4v and its inverse for all 40 versions, alignment rows V02..V40 against Annex E, which versions carry "
+                    "alignment/version blocks, the backing array size; after the blank symbol is built no function module can be "
+                    "written (every module write outside default:: is edge-dominated by module_type()==Data on the same place; the "
+                    "backing array is mutably borrowed only by the row accessor whose rows are size-long). Payload independence "
+                    "follows from the guard rule. Not decided: the coordinates the drawing loops cover beyond what the rules name.",
+    )
+
+
+def C04(ctx):
+    f = ctx.facts("default")
+    T.c04_t1(ctx, f)
+    T.c04_t2(ctx, f)
+    T.c03_t3(ctx, f)
+    R.c04_r1(ctx, f)
+    R.c04_r2(ctx, f)
+    R.c05_gate(ctx, f)
+    x("c04_r3", ctx, f)
+    witness.rule(ctx, "C04.W1", "reported parameters are public fields of the documented types", ["w_c04_reported_fields"])
+    return dict(
+        level="other",
+        explanation="All 32 format words and 34 version words are recomputed from the BCH generator polynomials; the mask written in "
+                    "the format information, the mask applied, the out-parameter and the reported mask have one source; reported "
+                    "level/version/mode are the values used; level defaults to Q; size is Version::size of the version built.",
+    )
+
+
+def C05(ctx):
+    f = ctx.facts("default")
+    T.c05_t1(ctx, f)
+    T.c05_t2(ctx, f)
+    R.c05_gate(ctx, f)
+    T.c06_t1(ctx, f)
+    E.c06_t3(ctx, f)
+    witness.rule(ctx, "C05.W1", "the error type has exactly the two documented variants", ["w_c05_error_is_exhaustive", "w_c10_build_type"])
+    return dict(
+        level="proof",
+        explanation="Version::get touches the length only through comparisons with constants, so path enumeration with interval "
+                    "refinement yields, for each of the 12 (mode, level) pairs, the exact partition of ALL usize lengths into "
+                    "version intervals; each is compared with the capacity computed from ISO Table 9 (4 + cci + bits(n) <= 8*data). "
+                    "The gate (forced >= needed), both error edges and the absence of any other Err/panic in QRCode::new are "
+                    "dominance facts over its MIR. Relative to: the encoders emitting exactly bits(n) payload bits (widths checked "
+                    "by C06.T3; push_bits arithmetic not decided).",
+        assumptions=["encoders emit exactly the bit counts the capacity formula assumes (widths decided by C06.T1/T3)"],
+    )
+
+
+def C06(ctx):
+    f = ctx.facts("default")
+    T.c06_t1(ctx, f)
+    E.c06_t2(ctx, f)
+    E.c06_t3(ctx, f)
+    T.c06_t4(ctx, f)
+    E.c06_r1(ctx, f)
+    T.c09_t2(ctx, f)
+    x("c06_r2", ctx, f)
+    return dict(
+        level="other",
+        explanation="Count widths (40x3), pad codewords and their parity, mode indicators, count field, digit-group widths and values "
+                    "(100a+10b+c), alphanumeric pair value (45a+b) and widths, terminator min(.,4), byte-alignment formula, stage "
+                    "order, KEEP_LAST masks for reachable widths, alphanumeric/digit value tables. Not decided: push_bits/push_u8 "
+                    "shift arithmetic beyond what the rules name, the remainder-digit loop.",
+    )
+
+
+def C07(ctx):
+    f = ctx.facts("default")
+    lay, dcw, deg, tot = tables_core(ctx, f)
+    T.c07_t1(ctx, f)
+    T.c07_r1(ctx, f, lay, deg)
+    x("c07_r2", ctx, f)
+    return dict(
+        level="other",
+        explanation="510 reachable GF(256)/0x11D table cells, 13 generator polynomials recomputed from the definition, the 160-cell "
+                    "degree map, buffer obligations of the division (block + generator fit for every cell; zero coefficients "
+                    "skipped). Not decided: that iterating the division step yields the remainder for every content (a linear-map "
+                    "identity over 256^k contents).",
+    )
+
+
+def C08(ctx):
+    f = ctx.facts("default")
+    R.c08_r1(ctx, f)
+    tbl = T.c08_dispatch(ctx, f)
+    T.c08_t1(ctx, f, tbl)
+    R.c04_r1(ctx, f)
+    x("c08_r4", ctx, f, tbl)
+    return dict(
+        level="other",
+        explanation="Every toggle/set of a module outside blank-symbol construction is guarded by module_type()==Data on the same "
+                    "place (so function patterns are identical under all masks on every path); the dispatcher is total and "
+                    "injective; the mask applied is the mask recorded; the offset tables of patterns 5/6 equal the ISO condition on "
+                    "the tile interior. Not decided: that each sweep toggles exactly the ISO Table 10 set at every coordinate.",
+    )
+
+
+def C09(ctx):
+    f = ctx.facts("default")
+    T.c09_t1(ctx, f)
+    T.c09_t2(ctx, f)
+    R.c09_r1(ctx, f)
+    x("c09_r2", ctx, f)
+    return dict(
+        level="other",
+        explanation="The classifier is folded over all 256 byte values and equals the ISO 45-character set; the value tables agree "
+                    "with it (no admitted byte is rejected or altered by the encoder); the mode used is the forced one, else "
+                    "best_encoding of the same input. Not decided: the two-stage scan over the string beyond what the rules name.",
+    )
+
+
+def C10(ctx):
+    f = ctx.facts("default")
+    T.c05_t1(ctx, f)
+    R.c05_gate(ctx, f)
+    lay, dcw, deg, tot = tables_core(ctx, f)
+    T.c02_r1(ctx, f, tot)
+    T.c07_r1(ctx, f, lay, deg)
+    T.c03_t1(ctx, f)
+    T.c06_t4(ctx, f)
+    T.c09_t1(ctx, f)
+    T.c09_t2(ctx, f)
+    witness.rule(ctx, "C10.W1", "build returns Result<QRCode, QRCodeError>; the error has exactly two variants",
+                 ["w_c05_error_is_exhaustive", "w_c10_build_type"])
+    x("c10_r1", ctx, f)
+    E.panic_inventory(ctx, f, ["qr::QRBuilder::build"], "build")
+    return dict(
+        level="other",
+        explanation="Panic-freedom for every length is a value-range claim over ~390 compiler-inserted asserts and is not decided. "
+                    "Decided are the mechanisms the property is anchored in: the capacity gate dominates all encoding work and its "
+                    "thresholds never admit more than capacity (all lengths); every fixed-size buffer is large enough for every "
+                    "configuration; only the documented errors exist; the classifier never admits a byte its encoder panics on. "
+                    "Evidence lists the explicit panic sites reachable from build and the assert inventory (no verdict).",
+    )
+
+
+def C11(ctx):
+    f = ctx.facts("default")
+    R.c11_rules(ctx, f)
+    T.c11_t1(ctx, f)
+    x("c11_r6", ctx, f)
+    return dict(
+        level="other",
+        explanation="All eight masks are tried, each candidate must be ranked by a penalty every argument of which depends on that "
+                    "masked candidate, the best is updated only on a strictly lower score starting from u32::MAX, a forced mask "
+                    "overrides, the total adds all five components, the dark-ratio table is right on reachable cells. "
+                    "KNOWN FINDING D1: the column terms are computed on an unmasked transposed copy. Not decided: the component "
+                    "scorers' run/window/2x2 arithmetic.",
+    )
+
+
+def C12(ctx):
+    f = ctx.facts("svg")
+    S.c12_r1(ctx, f)
+    S.c12_r2(ctx, f)
+    S.c12_r3(ctx, f)
+    S.c12_r4(ctx, f)
+    S.c12_r5(ctx, f)
+    S.c12_r6(ctx, f)
+    S.c12_t1(ctx, f)
+    x("c12_r7", ctx, f)
+    return dict(
+        level="other",
+        explanation="Injection: forward taint from the image option to the returned markup must pass an attribute escaper "
+                    "recognised by its decision table. Dark-modules-only, per-layer coverage and anchoring are dominance and "
+                    "polynomial facts about the callback call; commands/colours grow together; viewBox, width and height are the "
+                    "same polynomial 2*margin+size; rgba2hex's format templates are decoded (two zero-padded lower-hex digits, "
+                    "alpha iff != 255); built-in shapes dispatch to their generators and start at M{column},{row}. Free-form colour "
+                    "strings are outside the property.",
+    )
+
+
+def C13(ctx):
+    f = ctx.facts("image")
+    I.c13_r1(ctx, f)
+    I.c13_t1(ctx, f)
+    I.c13_r2(ctx, f)
+    return dict(
+        level="other",
+        explanation="Pixel values come from resvg/tiny-skia, whose bodies are not local MIR: not decided. Decided: all 11 Builder "
+                    "options are forwarded unchanged to the inner SVG builder, the (fit_width, fit_height) -> FitTo decision table "
+                    "with its payload flow, one FitTo used for both size and rendering, the SVG rasterised is svg_builder.to_str(qr), "
+                    "and bytes/file encode the unmodified pixmap.",
+        assumptions=["resvg 0.28 rasterises an SVG path/rect at module centres as the SVG specification says (external code)"],
+    )
+
+
+def C14(ctx):
+    fixture.selfcheck(ctx)
+    for cfg in ("default", "svg", "image"):
+        f = ctx.facts(cfg)
+        P.p1_statics(ctx, f)
+        P.p2_unsafe(ctx, f)
+        P.p3_types(ctx, f)
+        P.p4_signatures(ctx, f)
+        P.p5_ambient(ctx, f)
+        P.p6_setters(ctx, f)
+    P.build_does_not_mutate(ctx, ctx.facts("default"))
+    I.c13_r1(ctx, ctx.facts("image"))
+    witness.rule(ctx, "C14.W", "Send+Sync for the four public types; build and renderers through shared references; setters chain on &mut",
+                 ["w_c14_send_sync", "w_c14_build_through_shared_ref", "w_c14_renderers", "w_c14_setters"])
+    return dict(
+        level="proof",
+        explanation="If the crate has no mutable/interior-mutable/thread-local static (P1), no user-written unsafe (P2), no "
+                    "state-bearing type that can hide shared mutable state (P3, type graph through fields and generic arguments), "
+                    "entry points that borrow builder and symbol immutably (P4), no ambient-state callee reachable from them (P5), "
+                    "and setters that each write exactly their own field from their argument (P6), then safe Rust guarantees that "
+                    "build and the renderers are functions of their argument values on any thread and in any order. Each premise "
+                    "is an enumerable fact over three feature configurations; zero-count rules are confirmed to fire on a positive "
+                    "fixture crate on every run.",
+        assumptions=["std collection/format code is deterministic", "resvg/usvg/tiny-skia keep no global state (external MIR not analysed)",
+                     "for non-data: image hrefs usvg reads the referenced file at render time (outside the crate)"],
+    )
+
+
+def C15(ctx):
+    f = ctx.facts("default")
+    ct = T.c15_t1(ctx, f)
+    lay, dcw, deg, tot = tables_core(ctx, f)
+    T.c15_t2(ctx, f, tot)
+    T.c03_t2(ctx, f)
+    T.c03_t3(ctx, f)
+    E.c15_r1(ctx, f, ct)
+    R.c08_r1(ctx, f, rid="C15.R2")
+    x("c03_r3", ctx, f)
+    witness.rule(ctx, "C15.W1", "callback slot is fn(usize, usize, Module) -> String; ModuleType has the eight documented regions",
+                 ["w_c15_callback_type", "w_c15_module_types"])
+    return dict(
+        level="other",
+        explanation="The label encoding is folded over 8 types x 2 values (new/module_type/value/set/toggle; eight constructors "
+                    "injective); each region writer uses one constructor; the blank array starts all-data and the format strip is "
+                    "reserved; data-module count identity for 40 versions; labels cannot change after construction (guarded writes "
+                    "change bit 0 only). Not decided: the coordinates each writer covers beyond what the rules name.",
+    )
+
+
+def C16(ctx):
+    f = ctx.facts("default")
+    t = Tm.c16_t1(ctx, f)
+    Tm.c16_r(ctx, f, t)
+    Tm.c16_entry(ctx, f)
+    return dict(
+        level="other",
+        explanation="The (top, bottom) -> glyph decision table is extracted from print_line's MIR and is the documented bijection; "
+                    "one glyph per column over 0..size; the three line groups (top half-line, row pairs, last row + light row) "
+                    "carry light side glyphs and newline separators; the rows referenced are arithmetic progressions whose closed "
+                    "forms enumerate rows 0..size-1 exactly once for each of the 40 sizes, giving (size+1)/2+1 lines.",
+    )
+
+
+def C17(ctx):
+    fixture.selfcheck(ctx)
+    f = ctx.facts("wasm")
+    Wm.c17_r1(ctx, f)
+    Wm.c17_r2(ctx, f)
+    Wm.c17_r3(ctx, f)
+    Wm.c17_r4(ctx, f)
+    Wm.c17_r5(ctx, f)
+    return dict(
+        level="other",
+        explanation="The wasm layer is analysed as host-compiled MIR under --cfg fast_qr_verif (no wasm32 target installed; without the "
+                    "wasm-bindgen feature the file has no wasm-only code). No unwrap/expect/panic call in any of its functions or "
+                    "closures; every constant Vec index is dominated by a length test of that same vector; option fields always "
+                    "hold values of the length the native conversions need; entry points build with QRCode::new and forward each "
+                    "option to the like-named native setter exactly once; failure maps to the empty value; the matrix export is "
+                    "data[..size*size] mapped through u8::from(value()). Shared with the native path: C10, C12.",
+        assumptions=["wasm-bindgen glue (attribute macros, not compiled here) adds no trap", "margin*2+n does not overflow usize"],
+    )
+
+
+def C18(ctx):
+    f = ctx.facts("svg")
+    S.c18_t1(ctx, f)
+    S.c18_r1(ctx, f)
+    x("c18_r2", ctx, f)
+    return dict(
+        level="other",
+        explanation="image_placement is folded over 3 shapes x 40 sizes: frame odd, non-decreasing, < 40% of the side, clear of the "
+                    "finder zone, image within 1..frame. x/y symmetry of every coordinate pair, width = height. Not decided: the "
+                    "floating-point centring/override arithmetic beyond what the rules name.",
+    )
+
+
+def C19(ctx):
+    f = ctx.facts("image")
+    S.c19_fn(ctx, f, "convert::svg::SvgBuilder::to_file", 2)
+    S.c19_r3(ctx, f)
+    I.c19_image(ctx, f)
+    I.c13_r2(ctx, f)
+    witness.rule(ctx, "C19.W1", "both to_file error types convert into ConvertError with `?`", ["w_c19_question_mark"])
+    return dict(
+        level="other",
+        explanation="Every fallible I/O call's result is consumed only by map_err / `?` / return (never unwrap, ok(), is_ok, drop or "
+                    "unused); Ok is dominated by the success edge of every fallible step; the bytes written are as_bytes() of the "
+                    "unmodified to_str(self, qr) through write_all to the file created at the caller's path; PNG output encodes "
+                    "the unmodified to_pixmap result; error conversions keep their payload and cannot panic.",
+        assumptions=["tiny_skia::Pixmap::save_png = encode_png + fs::write (external)"],
     )
 
 
 PROPS = {
-    "C02": C02,
+    "C01": C01, "C02": C02, "C03": C03, "C04": C04, "C05": C05, "C06": C06, "C07": C07, "C08": C08, "C09": C09, "C10": C10,
+    "C11": C11, "C12": C12, "C13": C13, "C14": C14, "C15": C15, "C16": C16, "C17": C17, "C18": C18, "C19": C19,
 }
-
-
-from . import rules_flow as R  # noqa: E402
-
-
-def _dbg(ctx):
-    from . import rules_wasm as Wm
-    f = ctx.facts("wasm")
-    Wm.c17_r1(ctx, f); Wm.c17_r2(ctx, f); Wm.c17_r3(ctx, f); Wm.c17_r4(ctx, f); Wm.c17_r5(ctx, f)
-    return dict(level="other", explanation="debug")
-
-
-PROPS["DBG"] = _dbg
